@@ -390,29 +390,10 @@ func formatPayeeDetailWithCount(payee string, counts map[string]int, showCounts 
 }
 
 func extractAccountPrefix(content string, pos protocol.Position) string {
-	lines := strings.Split(content, "\n")
-	if int(pos.Line) >= len(lines) {
-		return ""
-	}
-
-	line := lines[pos.Line]
-	byteCol := lsputil.UTF16OffsetToByteOffset(line, int(pos.Character))
-	if byteCol > len(line) {
-		byteCol = len(line)
-	}
-
-	beforeCursor := strings.TrimSpace(line[:byteCol])
-
-	lastColon := strings.LastIndex(beforeCursor, ":")
-	if lastColon == -1 {
-		return ""
-	}
-
-	start := strings.LastIndexAny(beforeCursor[:lastColon], " \t")
-	if start == -1 {
-		return beforeCursor[:lastColon+1]
-	}
-	return beforeCursor[start+1 : lastColon+1]
+	// The parent part of the account being typed is the typed fragment up to its last colon.
+	// Account names may contain single blanks, so a blank does not start a new name.
+	query := extractQueryText(content, pos, ContextAccount)
+	return query[:strings.LastIndex(query, ":")+1]
 }
 
 func getAccountsForPrefix(accounts *analyzer.AccountIndex, prefix string) []string {
@@ -420,11 +401,20 @@ func getAccountsForPrefix(accounts *analyzer.AccountIndex, prefix string) []stri
 		return accounts.All
 	}
 
-	if accs, ok := accounts.ByPrefix[prefix]; ok {
-		return accs
+	// Names are matched against the typed fragment without regard to letter case,
+	// so the candidates must not be narrowed case-sensitively either.
+	lowerPrefix := strings.ToLower(prefix)
+	var narrowed []string
+	for _, acc := range accounts.All {
+		if strings.HasPrefix(strings.ToLower(acc), lowerPrefix) {
+			narrowed = append(narrowed, acc)
+		}
+	}
+	if len(narrowed) == 0 {
+		return accounts.All
 	}
 
-	return accounts.All
+	return narrowed
 }
 
 func extractCurrentTagName(line string, pos int) string {
